@@ -326,6 +326,17 @@ void run_full_buffer(RunCtx& cx) {
                          " || FAULT " + kind_name(kind) + (persist ? " persistent" : " once") + " at the next write call on the output";
     Out ref0 = run(L, false, false);
     if (!ref0.recovered || ref0.rotate_threw) { cx.ctr->add("scenarios_skipped_faultfree_pass_threw"); F.reset(); F.log = nullptr; return; }
+    // the fault-free pass is a scenario in its own right: the output closed with the staging buffer at this level is a complete file
+    for (int which = 0; which < 2; which++) {
+        const std::string& raw = which == 0 ? ref0.old_raw : ref0.rec_raw;
+        try { if (!raw.empty()) ref::Interp::file(raw); }
+        catch (std::exception& e) {
+            std::string d = std::string(which == 0 ? "the output closed by rotate_output" : "the output that followed") + " with " + std::to_string(target) + " bytes in the encoder's staging buffer at the rotation is not a complete C-DNS file (no fault injected): " + e.what();
+            cx.violation("C13", "C13/I12/closed-output-not-a-complete-file/staging-buffer-level", d);
+            cx.violation("C02", "C02/I02/malformed-cbor/staging-buffer-level", d);
+            if (!fd) cx.violation("C15", "C15/I14/invalid-file-under-final-name/staging-buffer-level", d);
+        }
+    }
     cx.log.ev("FULLBUF target " + std::to_string(target) + " L " + std::to_string(L) + " old " + std::to_string(ref0.old_raw.size()) + " rec " + std::to_string(ref0.rec_raw.size()));
     Out got = run(L, true, false);
     auto V = [&](const std::string& prop, const std::string& cls, const std::string& d) {
@@ -658,6 +669,10 @@ static void engine_fault_impl(RunCtx& cx) {
                 else if (p.plan.sw.compression == 2) dec = model::unxz_exact(raw, plain, err);
                 else plain = raw;
                 // the recovery output is an output like any other: C02 / C13 / C10 hold for it too (API history with an exception in it)
+                if (dec && !plain.empty()) {
+                    model::VFile vfr = model::view_bytes(plain);
+                    if (!vfr.opened) cx.violation("C09", "C09/I25/preamble-unreadable-in-output-after-write-fault", rec_name + ": the output opened by the recovering rotate_output has no readable file header and preamble: " + vfr.error_type + ": " + vfr.error);
+                }
                 auto also = [&](const std::string& d) {
                     cx.violation("C02", "C02/I02/output-after-write-fault-invalid", d);
                     cx.violation("C13", "C13/I12/output-after-write-fault-not-self-contained", d);
